@@ -59,8 +59,10 @@ pub open spec fn fin_ok(bytes: Seq<u8>, pos: int, n: int, comment: Seq<u8>, cs: 
     let zl = Z64Loc { cd_disk: 0, z64_off: (cs + csz) as u64, n_disks: 1 };
     let tail = if z64 { cs + csz + 76 } else { cs + csz };
     &&& 0 <= cs && 0 <= csz && cs + csz <= MAX_OFF
-    // ZIP64 records are present whenever a count, size or offset does not fit its field
-    &&& ((n > 0xFFFF || csz > U32MAX || cs > U32MAX) ==> z64)
+    // ZIP64 records are present whenever a count, size or offset does not fit its field - and a field "does not fit" from the
+    // all-ones value on: APPNOTE 4.4.1.4 reserves 0xFFFF / 0xFFFFFFFF in the end record to mean "see the ZIP64 record", so an
+    // independent parser that meets the value looks for that record (F28: 65535 entries / a directory at offset 0xFFFFFFFF)
+    &&& ((n >= 0xFFFF || csz >= U32MAX || cs >= U32MAX) ==> z64)
     // and whenever present they carry the exact values and point at each other
     &&& (z64 ==> inb(bytes, cs + csz, 76) && at(bytes, cs + csz, 56) == enc_z64eocd(zr) && at(bytes, cs + csz + 56, 20) == enc_z64loc(zl))
     // the end record closes the file; each field is exact, or saturated with the ZIP64 record present
